@@ -168,6 +168,8 @@ type Scn struct {
 	Mockers  []string `json:"mockers"` // target names, one mocker thread each
 	Callers  int      `json:"callers"`
 	CallsPer int      `json:"calls_per_caller"`
+	// Steady: how S is steadily mocked: "" = callback calling the origin placeholder, "sequence" = Return(v1).AndReturn(v2)
+	Steady string `json:"steady,omitempty"`
 }
 
 // Case is the replay artefact.
@@ -185,6 +187,11 @@ type obs struct {
 }
 
 const steadyBonus = 7000000
+
+// the two elements of the steady result sequence (every call yields one of them, the last one for good)
+const seq1, seq2 = 8100001, 8100002
+
+var steadySeq bool
 
 // mockerBody is the per-builder script: apply a callback, call, re-stub with Return, call,
 // reset, call. Observations are appended to out.
@@ -216,12 +223,25 @@ func callerBody(id, n int, out *[]obs, yield func(string)) {
 			yield("between-calls")
 		}
 		a := 10*id + k
+		if steadySeq {
+			got := steady.fn(a)
+			want := got
+			if got != seq1 && got != seq2 {
+				want = seq2
+			}
+			*out = append(*out, obs{fmt.Sprintf("caller%d", id), fmt.Sprintf("call %d of S, steadily mocked with the result sequence (%d, %d),", k, seq1, seq2), got, want})
+			continue
+		}
 		*out = append(*out, obs{fmt.Sprintf("caller%d", id), fmt.Sprintf("call %d of the steadily mocked S", k), steady.fn(a), a + steady.k + steadyBonus})
 	}
 }
 
 func installSteady() *mocker.Builder {
 	b0 := mocker.Create()
+	if steadySeq {
+		b0.Func(steady.fn).Return(seq1).AndReturn(seq2)
+		return b0
+	}
 	b0.Func(steady.fn).Origin(steady.origin).Apply(func(a int) int { return (*steady.origin)(a) + steadyBonus })
 	return b0
 }
@@ -241,6 +261,7 @@ func scenario(sn Scn) (sched.Scenario, func() []obs) {
 	sc := sched.Scenario{Name: "c11/" + sn.Name, Horizon: 20000}
 	sc.Setup = func() []func() {
 		forceClean()
+		steadySeq = sn.Steady == "sequence"
 		b0 = installSteady()
 		vsys.ResetLog()
 		vsys.Logging = true
@@ -297,7 +318,7 @@ func scenario(sn Scn) (sched.Scenario, func() []obs) {
 		if bad := vk.OutsideAllowed(img.Diff(), allowed); len(bad) > 0 {
 			return fmt.Sprintf("not-restored: after all mocker threads have reset, bytes outside the steady mock's entry and the placeholders differ: %s", rel(bad))
 		}
-		if s := steady.fn(1); s != 1+steady.k+steadyBonus {
+		if s := steady.fn(1); !steadySeq && s != 1+steady.k+steadyBonus || steadySeq && s != seq2 && (s != seq1 || sn.Callers*sn.CallsPer > 0) {
 			return fmt.Sprintf("steady-mock-broken: after the threads joined S(1) returned %d", s)
 		}
 		b0.Reset()
@@ -344,14 +365,16 @@ func rel(rs []vk.Range) string {
 
 func scenarios(thorough bool) []Scn {
 	s := []Scn{
-		{"same-page/2mockers+1caller", []string{"F1", "F2"}, 1, 3},
-		{"other-page/2mockers+1caller", []string{"F1", "F3"}, 1, 3},
-		{"same-page/1mocker+2callers", []string{"F2"}, 2, 2},
+		{"same-page/2mockers+1caller", []string{"F1", "F2"}, 1, 3, ""},
+		{"other-page/2mockers+1caller", []string{"F1", "F3"}, 1, 3, ""},
+		{"same-page/1mocker+2callers", []string{"F2"}, 2, 2, ""},
+		{"sequence/2callers", nil, 2, 2, "sequence"},
 	}
 	if thorough {
 		s = append(s,
-			Scn{"same-page/2mockers+2callers", []string{"F1", "F2"}, 2, 2},
-			Scn{"3mockers", []string{"F1", "F2", "F3"}, 0, 0},
+			Scn{"same-page/2mockers+2callers", []string{"F1", "F2"}, 2, 2, ""},
+			Scn{"sequence/1mocker+3callers", []string{"F2"}, 3, 1, "sequence"},
+			Scn{"3mockers", []string{"F1", "F2", "F3"}, 0, 0, ""},
 		)
 	}
 	return s
@@ -432,6 +455,83 @@ func explore(c *vk.Ctx) {
 	c.Res.Extra["bounds"] = fmt.Sprint(bounds)
 }
 
+// own unexported functions, mocked by name (the first resolution of each name in the process
+// happens concurrently with the others)
+//
+//go:noinline
+func priv0(a int) int { return privBody(a, 0) }
+
+//go:noinline
+func priv1(a int) int { return privBody(a, 1) }
+
+//go:noinline
+func priv2(a int) int { return privBody(a, 2) }
+
+//go:noinline
+func priv3(a int) int { return privBody(a, 3) }
+
+//go:noinline
+func priv4(a int) int { return privBody(a, 4) }
+
+//go:noinline
+func priv5(a int) int { return privBody(a, 5) }
+
+//go:noinline
+func priv6(a int) int { return privBody(a, 6) }
+
+//go:noinline
+func priv7(a int) int { return privBody(a, 7) }
+
+//go:noinline
+func privBody(a, k int) int {
+	if a > 1<<40 {
+		return a*k - 1
+	}
+	return a + 100*k
+}
+
+// byName: independent builders mock disjoint unexported functions by name, all at once.
+func byName(c *vk.Ctx) {
+	privs := []func(int) int{priv0, priv1, priv2, priv3, priv4, priv5, priv6, priv7}
+	var wg sync.WaitGroup
+	start := make(chan struct{})
+	fails := make([]string, len(privs))
+	for i := range privs {
+		i := i
+		wg.Add(1)
+		go func() {
+			defer wg.Done()
+			growStack(48)
+			<-start
+			for r := 0; r < 3; r++ {
+				b := mocker.Create()
+				b.ExportFunc(fmt.Sprintf("priv%d", i)).As(func(a int) int { return 0 }).Return(9000 + i)
+				if got := privs[i](5); got != 9000+i && fails[i] == "" {
+					fails[i] = fmt.Sprintf("priv%d mocked by name returned %d, expected %d", i, got, 9000+i)
+				}
+				b.Reset()
+				if got := privs[i](5); got != 5+100*i && fails[i] == "" {
+					fails[i] = fmt.Sprintf("priv%d after Reset returned %d, expected %d", i, got, 5+100*i)
+				}
+			}
+		}()
+	}
+	close(start)
+	wg.Wait()
+	c.Res.Evaluations++
+	c.Res.Traces++
+	for _, f := range fails {
+		if f != "" {
+			c.Violate("race class=by-name-wrong-result", "free-running pass (8 builders mocking 8 own unexported functions by name at once): "+f, Case{Sub: "race"})
+			break
+		}
+	}
+	if bad := vk.OutsideAllowed(img.Diff(), placeholders); len(bad) > 0 {
+		c.Violate("race class=not-restored", "free-running pass (by name): image not restored at quiescence: "+rel(bad), Case{Sub: "race"})
+		forceClean()
+	}
+}
+
 // race: free-running bodies in a -race build.
 func race(c *vk.Ctx) {
 	rounds := 40
@@ -440,9 +540,11 @@ func race(c *vk.Ctx) {
 	}
 	names := []string{"F1", "F2", "F3", "F4", "F5", "F6", "F7", "F8"}
 	c.Note(`{"__key":"race free-running pass","case":{"sub":"race"}}`)
+	byName(c)
 	for _, nm := range []int{2, 4, 8} {
 		for _, nc := range []int{2, 8} {
 			for r := 0; r < rounds; r++ {
+				steadySeq = r%4 == 3
 				b0 := installSteady()
 				var wg sync.WaitGroup
 				outs := make([][]obs, nm+nc)
@@ -483,6 +585,7 @@ func race(c *vk.Ctx) {
 			}
 		}
 	}
+	steadySeq = false
 	c.Res.States = 1
 	c.Res.Extra["sampled_side_pass"] = true
 	c.Res.Extra["race_pass"] = "sampled (N in {2,4,8} mockers x M in {2,8} callers free-running under the race detector; precondition check for the explorer, not the decider)"
